@@ -591,11 +591,15 @@ def evaluated_second_call(rep, ex: Explorer, qual: str, role: str):
     site = fn_label(prog, qual)
     fi = prog.function(qual)
     n = 0
-    for weakly in (False, True):
+    from .. import depth
+    # thorough tier: also on a base of two conditionals of which the second is replaced (a memo that only goes stale on larger
+    # bases, a key that looks at the first conditional only)
+    shapes = [((7, "old"),)] + ([((0, "keep"), (7, "old"))] if depth.thorough() else [])
+    for weakly, shape in [(w, sh) for w in (False, True) for sh in shapes]:
         marks = {}
 
-        def setup(I, weakly=weakly, marks=marks):
-            conds = I.alloc(HDict(entries={7: ElemV(("obj", "old"), "cond")}))
+        def setup(I, weakly=weakly, marks=marks, shape=shape):
+            conds = I.alloc(HDict(entries={k_: ElemV(("obj", nm_), "cond") for k_, nm_ in shape}))
             bb = I.alloc(HObj(BB_CLASS, {"conditionals": conds, "signature": Sym(("signature", "D")), "name": Sym(("bbname", "D"), "str")}))
             I.call_function(fi, [bb, Const("z3"), Const(weakly)], {}, None, force_inline=True)
             I.deref(conds).entries[7] = ElemV(("obj", "new"), "cond")
@@ -621,7 +625,7 @@ def evaluated_second_call(rep, ex: Explorer, qual: str, role: str):
             tests = [ev for ev in evs[cut:] if ev.kind == "query"]
             asked_new = any(ver_new in [canon_item(i) for i in flat(ev.frames)] for ev in tests)
             n += 1
-            mode = "extended" if weakly else "strict"
+            mode = ("extended" if weakly else "strict") + (", two conditionals" if len(shape) > 1 else "")
             rep.check(asked_new, "PART.partition", site, f"second call after a conditional was replaced ({mode})",
                       "the verdict comes from the tolerance tests of the conditionals the base holds at the time of the call (nothing remembered on the base object or the module stands in for them)",
                       extracted=("tests the conditional now in the base" if asked_new else f"answers without testing the conditional now in the base ({len(tests)} tests in the second call): the first call's result is handed out again"),
